@@ -48,7 +48,8 @@ PcbcFrom(enc, c, s, m, bs, i) ==
   IF i > NBlocks(m, bs) THEN <<<<>>, s>>
   ELSE LET x == Blk(m, i, bs)
            o == IF enc THEN EncB(c, XorBlk(x, s)) ELSE XorBlk(DecB(c, x), s)
-           r == PcbcFrom(enc, c, XorBlk(x, o), m, bs, i + 1)
+           s2 == XorBlk(x, o)          \* (bound by LET: TLC caches a LET value, an argument expression is re-evaluated)
+           r == PcbcFrom(enc, c, s2, m, bs, i + 1)
        IN  <<o \o r[1], r[2]>>
 PcbcEncIndexed(c, iv, m, bs) == Flatten([i \in 1..NBlocks(m, bs) |-> PcbcEncCS(c, iv, m, bs, i)[1]], NBlocks(m, bs))
 PcbcEnc(c, iv, m, bs) == PcbcFrom(TRUE, c, iv, m, bs, 1)[1]
